@@ -68,3 +68,29 @@ Theorem C01_accepted_satisfies_cross_rules : forall vk H K fl V t max_cost clvm_
   parse_spends vk H K fl V t max_cost clvm_cost = Ok r ->
   exists ps, tree_syntax fl t = Ok ps /\ CrossRules H ps.
 Proof. exact accepted_satisfies_cross_rules. Qed.
+
+(* S3: acceptance characterised over pure data.  parse_spends accepts a tree exactly when the tree
+   parses syntactically into a bundle ps for which (a) the fold of per-condition guards — a boolean
+   function of ps, the cost limit and the flags: self-assertions, duplicate outputs, relative-lock and
+   birth consistency, reserve-fee range, key validity and the AGG_SIG_UNSAFE suffix ban, announcement
+   count before the fork, cost budget, double spends, spend limit — is true, and (b) the bundle rules
+   hold: value conservation, absolute before/after locks compatible, every cross-spend assertion
+   matched.  No validation state appears on the right-hand side. *)
+From ChiaV.Cond Require Import Guards Accept Totals Final.
+Theorem C01_accept_characterisation : forall vk H K fl V t max_cost clvm_cost,
+  (exists r, parse_spends vk H K fl V t max_cost clvm_cost = Ok r) <->
+  exists ps,
+    tree_syntax fl t = Ok ps /\
+    spends_guards vk H K fl ps max_cost 0 [] (if f_limit_spends fl then Some MAX_SPENDS_PER_BLOCK else None) = true /\
+    BundleRules H ps.
+Proof. exact accept_characterisation. Qed.
+
+(* the guards of one condition step, and that a step succeeds exactly when its guard holds *)
+Theorem C01_step_guard_sound : forall vk K fl st cva st',
+  apply_condition vk K fl st cva = Ok st' ->
+  aguard vk K fl (acore_of st) cva = true /\ acore_of st' = aeffect fl (acore_of st) cva.
+Proof. exact apply_condition_a. Qed.
+
+Theorem C01_step_guard_complete : forall vk K fl st cva,
+  aguard vk K fl (acore_of st) cva = true -> exists st', apply_condition vk K fl st cva = Ok st'.
+Proof. exact apply_condition_ok. Qed.
